@@ -88,6 +88,8 @@ fn build(specs: Vec<Spec>) -> World {
 enum Op {
     IntValue,
     IntSet(i64),
+    IntMin,
+    IntMax,
     FloatValue,
     FloatSet(u64),
     StrValue,
@@ -114,6 +116,8 @@ fn run_real(w: &mut World, idx: usize, op: &Op, dev: &mut RecDevice) -> Out {
     let r = catch(|| -> Result<Out, cameleon_genapi::GenApiError> {
         Ok(match op {
             Op::IntValue => Out::Int(nid.expect_iinteger_kind(store)?.value(dev, store, cx)?),
+            Op::IntMin => Out::Int(nid.expect_iinteger_kind(store)?.min(dev, store, cx)?),
+            Op::IntMax => Out::Int(nid.expect_iinteger_kind(store)?.max(dev, store, cx)?),
             Op::IntSet(v) => {
                 nid.expect_iinteger_kind(store)?.set_value(*v, dev, store, cx)?;
                 Out::Unit
@@ -275,9 +279,28 @@ fn viol(kind: &str, s: &Spec, extra: Value, what: String) -> Option<Verdict> {
 /// Property oracle on the implementation's own outputs.  Preconditions of the
 /// statement: plain (non-chunk) port, reliable device, non-negative length.
 fn oracle(s: &Spec, op: &Op, before: &RecDevice, out: &Out, after: &RecDevice) -> Option<Verdict> {
-    if s.chunk || !before.refuse.is_empty() || s.len < 0 {
+    if s.chunk || s.len < 0 || before.refuse.contains(&0) {
+        // No device access can be performed here (chunk port: ChunkDataMissing / todo!();
+        // negative length: nothing addressable; refuse=[0]: the only access of the op is
+        // refused).  Whatever the result, the device must be untouched and an `Ok` is impossible.
+        if matches!(op, Op::IntMin | Op::IntMax) {
+            return None;
+        }
+        if after.img != before.img || !after.outside.is_empty() || after.writes() != 0 {
+            return viol("write-on-refusal", s, json!("refusing-device/chunk/negative-length"), format!("device changed although no access could succeed: log {}", after.log_str()));
+        }
+        if !after.log.is_empty() {
+            return viol("footprint", s, json!("access logged although refused"), after.log_str());
+        }
+        if !matches!(out, Out::Err(_) | Out::Panic) {
+            return viol("ok-without-device-access", s, json!(null), format!("{:?} although the device performed no access", out));
+        }
+        if before.refuse.contains(&0) && !s.chunk && s.len >= 0 && *out == Out::Panic {
+            return viol("panic", s, json!("refusing device"), "panic on a device error".into());
+        }
         return None;
     }
+    // (a fault script that does not contain 0 cannot fire: every op performs at most one access)
     let len = s.len as usize;
     let off = (s.addr - before.base) as usize;
     let reg_before = &before.img[off..off + len];
@@ -301,6 +324,14 @@ fn oracle(s: &Spec, op: &Op, before: &RecDevice, out: &Out, after: &RecDevice) -
         None
     };
     match op {
+        Op::IntMin | Op::IntMax => {
+            // not a clause of the statement (the node reports the full i64 range whatever its
+            // length); only: no device access
+            if !after.log.is_empty() {
+                return viol("footprint", s, json!("min/max touched the device"), after.log_str());
+            }
+            None
+        }
         Op::IntValue => {
             if matches!(len, 1 | 2 | 4 | 8) {
                 let exp = expected_int(reg_before, s.be, s.signed);
@@ -385,9 +416,16 @@ fn oracle(s: &Spec, op: &Op, before: &RecDevice, out: &Out, after: &RecDevice) -
         }
         Op::StrValue => {
             let end = reg_before.iter().position(|b| *b == 0).unwrap_or(len);
-            let exp = String::from_utf8_lossy(&reg_before[..end]).to_string();
-            if *out != Out::Str(exp.clone()) {
-                return viol("str-decode", s, json!(null), format!("value() = {:?}, expected {:?}", out, exp));
+            let prefix = &reg_before[..end];
+            let ok = match out {
+                // ASCII prefix (the contract): the returned string's bytes are exactly the prefix
+                Out::Str(st) if prefix.is_ascii() => st.as_bytes() == prefix,
+                // non-ASCII device bytes: only the std lossy decoding can be compared (self-comparison)
+                Out::Str(st) => *st == String::from_utf8_lossy(prefix),
+                _ => false,
+            };
+            if !ok {
+                return viol("str-decode", s, json!(null), format!("value() = {:?}, register prefix {}", out, hex(prefix)));
             }
             if !one_read() {
                 return viol("footprint", s, json!("value"), format!("log {}", after.log_str()));
@@ -451,6 +489,8 @@ fn oracle(s: &Spec, op: &Op, before: &RecDevice, out: &Out, after: &RecDevice) -
 fn op_tokens(op: &Op) -> (String, String) {
     match op {
         Op::IntValue => ("int.value".into(), "-".into()),
+        Op::IntMin => ("int.min".into(), "-".into()),
+        Op::IntMax => ("int.max".into(), "-".into()),
         Op::IntSet(v) => ("int.set".into(), v.to_string()),
         Op::FloatValue => ("float.value".into(), "-".into()),
         Op::FloatSet(b) => ("float.set".into(), format!("f:{b:016x}")),
@@ -472,7 +512,8 @@ fn out_str(out: &Out, s: &Spec, before: &RecDevice) -> String {
             let off = (s.addr - before.base) as usize;
             let reg = &before.img[off..off + len];
             let end = reg.iter().position(|b| *b == 0).unwrap_or(len);
-            if String::from_utf8_lossy(&reg[..end]) == st.as_str() {
+            let same = if reg[..end].is_ascii() { st.as_bytes() == &reg[..end] } else { String::from_utf8_lossy(&reg[..end]) == st.as_str() };
+            if same {
                 format!("ok {}", hex(&reg[..end]))
             } else {
                 format!("ok NOT-LOSSY-OF-PREFIX:{}", hex(st.as_bytes()))
@@ -524,6 +565,14 @@ impl Runner {
             }
         ));
         self.rep.count(&format!("len/{}", s.len));
+        if let (Op::StrValue, Out::Str(st)) = (&op, &out) {
+            self.rep.count(if st.is_ascii() { "str.value/ascii-prefix(raw-byte oracle)" } else { "str.value/non-ascii-prefix(lossy self-comparison only)" });
+        }
+        if let Op::IntSet(v) = &op {
+            if out == Out::Unit && matches!(s.len, 1 | 2 | 4) && !in_range(*v, s.len as usize, s.signed) {
+                self.rep.count("int.set/out-of-natural-range value truncated (accepted, not refused)");
+            }
+        }
         if let Some(v) = oracle(&s, &op, &before, &out, &dev) {
             self.rep.violation(
                 v.sig,
@@ -660,7 +709,7 @@ fn main() {
     let mut rng = Rng::new(args.seed);
     let rep = Report::new(
         "C01",
-        "real nodes parsed from generated XML (kind x length incl. unsupported x byte order x sign x address), caching off, recording device; exhaustive values for 8/16-bit (16-bit strided in quick), boundary+random for 32/64-bit and floats, random device images, strings incl. unrepresentable ones, raw reads/writes with right and wrong buffer lengths, device refusals; a case is non-trivial when the access succeeds; distinct by full request line",
+        "real nodes parsed from generated XML (kind x length incl. unsupported x byte order x sign x address), caching off, recording device; exhaustive values for 8-bit on every node and for 16-bit on one address per (byte order, sign) configuration in BOTH tiers (strided on the other addresses), boundary+random for 32/64-bit and floats, random device images, strings incl. unrepresentable ones, raw reads/writes with right and wrong buffer lengths, device refusals; a case is non-trivial when the access succeeds; distinct by full request line",
     );
 
     // ----- node table -----
@@ -736,6 +785,8 @@ fn main() {
         let dev = RecDevice::new(base, img, refuse);
         match rp["op"].as_str().unwrap() {
             "int.value" => { r.case(0, Op::IntValue, dev, src); }
+            "int.min" => { r.case(0, Op::IntMin, dev, src); }
+            "int.max" => { r.case(0, Op::IntMax, dev, src); }
             "int.set" => { r.case(0, Op::IntSet(arg.parse().unwrap()), dev, src); }
             "int.roundtrip" => r.int_roundtrip(0, arg.parse().unwrap(), rng, src),
             "float.value" => { r.case(0, Op::FloatValue, dev, src); }
@@ -783,6 +834,10 @@ fn main() {
     };
     for &idx in &int_nodes.clone() {
         let s = r.w.specs[idx].clone();
+        for op in [Op::IntMin, Op::IntMax] {
+            let dev = r.fresh_dev(idx, &mut rng, None);
+            r.case(idx, op, dev, "int-minmax");
+        }
         match s.len {
             1 => {
                 for v in -130i64..=260 {
@@ -797,10 +852,10 @@ fn main() {
                 }
             }
             2 => {
-                let stride = if thorough { 1 } else { 37 };
-                // the exhaustive sweep runs on one address per configuration, strided on the others
+                let stride = 1;
+                // the exhaustive sweep (every 16-bit value, both tiers) runs on one address per configuration, strided on the others
                 let first_of_cfg = int_nodes.iter().position(|&j| { let t = &r.w.specs[j]; t.len == 2 && t.be == s.be && t.signed == s.signed }) == int_nodes.iter().position(|&j| j == idx);
-                let stride = if first_of_cfg { stride } else { 251 };
+                let stride = if first_of_cfg { stride } else if thorough { 37 } else { 251 };
                 let mut v = -32770i64;
                 while v <= 65540 {
                     r.int_roundtrip(idx, v, &mut rng, "int16-sweep");
